@@ -42,7 +42,7 @@ def instrument(ctx):
         f, _, line = where.partition(":")
         if f != "storage.go" and line.isdigit():
             pub.setdefault(f, {})[int(line)] = field
-    for f in sorted(set(("2fa_totp.go", "2fa_u2f.go", "unseal.go")) | set(pub)):
+    for f in sorted(set(("2fa_totp.go", "2fa_u2f.go", "unseal.go", "auth_oauth2.go")) | set(pub)):
         path = os.path.join(d, f)
         if not os.path.exists(path):
             continue
